@@ -206,6 +206,8 @@ func (s *lexState) known(off int) (isNil, nonNil bool, eq rune, hasEq bool) {
 			eq, hasEq, nonNil = f.r, true, true
 		case f.off == off && (f.kind == fNe || f.kind == fIn || f.kind == fNotIn):
 			// a dereference happened, so the position holds a rune on this path
+			// (an unguarded dereference is reported where it happens)
+			nonNil = true
 		}
 	}
 	return
@@ -266,9 +268,19 @@ func (s *lexState) add(f charFact) bool {
 		if isNil || (hasEq && !f.set.has(eq)) {
 			return false
 		}
+		for _, g := range s.facts {
+			if g.off == f.off && g.kind == fNotIn && subsetOf(*f.set, *g.set) {
+				return false
+			}
+		}
 	case fNotIn:
 		if hasEq && f.set.has(eq) {
 			return false
+		}
+		for _, g := range s.facts {
+			if g.off == f.off && g.kind == fIn && subsetOf(*g.set, *f.set) {
+				return false
+			}
 		}
 	}
 	s.facts = append(s.facts, f)
@@ -782,4 +794,19 @@ func (e *lexEval) condFact(s *lexState, cond ast.Expr, taken bool) (charFact, bo
 		}
 	}
 	return charFact{}, false
+}
+
+func subsetOf(a, b runeSet) bool {
+	for _, x := range a.norm().ranges {
+		ok := false
+		for _, y := range b.norm().ranges {
+			if x[0] >= y[0] && x[1] <= y[1] {
+				ok = true
+			}
+		}
+		if !ok {
+			return false
+		}
+	}
+	return true
 }
